@@ -66,6 +66,8 @@ const PREALLOC_GUARD: u64 = 1 << 20;
 const PREALLOC_REAL_RUNS: u64 = 3;
 
 struct Ctx {
+    alloc_hits: u64,
+    guard: bool,
     force: bool,
     guarded: u64,
     guarded_run: u64,
@@ -89,9 +91,10 @@ struct Tally {
 /// One load of `bytes` into the pre-populated engine. Returns the decode class.
 fn attempt(cx: &mut Ctx, sm: &mut Summary, t: &mut Tally, bytes: &[u8], what: &str) -> &'static str {
     if bytes.len() >= 5 && bytes[..4] == MAGIC && bytes[4] == 0 {
-        if let Some((_, l)) = announced_overrun(bytes, 5, PREALLOC_GUARD) {
-            // class F25: loading this would make the decoder allocate (and zero) `l` bytes. Only a
-            // few are loaded for real; the rest are counted, not run (each costs up to seconds and GiBs).
+        if let (true, Some((_, l))) = (cx.guard, announced_overrun(bytes, 5, PREALLOC_GUARD)) {
+            // only when the probe at the start showed that the decoder allocates announced lengths
+            // (F25 regression, already reported as a violation): loading this would allocate and
+            // zero `l` bytes. A few are loaded for real; the rest are counted, not run.
             cx.guarded += 1;
             cx.guarded_max = cx.guarded_max.max(l);
             if !cx.force && (cx.guarded_run >= PREALLOC_REAL_RUNS || l < (64 << 20) || l > (512 << 20) || !cx.hwm_ok) {
@@ -121,8 +124,10 @@ fn attempt(cx: &mut Ctx, sm: &mut Summary, t: &mut Tally, bytes: &[u8], what: &s
     let grown = hwm.saturating_sub(cx.hwm);
     cx.max_alloc_kb = cx.max_alloc_kb.max(grown);
     if grown > ALLOC_LIMIT_KB + bytes.len() as u64 / 1024 {
-        sm.failure(Some("F25_decoder_allocates_length_prefix"),
-            &format!("loading {} bytes raised the peak RSS by {} kB ({} ms): the decoder allocates what a length prefix announces", bytes.len(), grown, ms), replay.clone());
+        // F25 (fixed in /repo by 20ac931): a regression is a violation
+        cx.alloc_hits += 1;
+        sm.failure(None,
+            &format!("loading {} bytes raised the peak RSS by {} kB ({} ms): the decoder allocates what a length prefix announces (regression of F25)", bytes.len(), grown, ms), replay.clone());
         reset_hwm();
         cx.hwm = vm_kb("VmHWM:");
     } else {
@@ -246,7 +251,7 @@ fn main() {
     let base_answers = answers(&pre, &qs);
     let base_bytes = pre.serialize_raw().unwrap();
     let hwm_ok = reset_hwm() && vm_kb("VmHWM:") > 0;
-    let mut cx = Ctx { force: false, guarded: 0, guarded_run: 0, guarded_max: 0, pre, qs, base_answers, base_bytes, hwm: vm_kb("VmHWM:"), hwm_ok, max_ms: 0, max_alloc_kb: 0 };
+    let mut cx = Ctx { alloc_hits: 0, guard: true, force: false, guarded: 0, guarded_run: 0, guarded_max: 0, pre, qs, base_answers, base_bytes, hwm: vm_kb("VmHWM:"), hwm_ok, max_ms: 0, max_alloc_kb: 0 };
     let mut tally = Tally::default();
 
     if let Some(p) = &a.replay {
@@ -267,6 +272,23 @@ fn main() {
 
     let mut cs = Cases::new(&a.out, "Generated Wire_Model C10_Model");
     sm.rule = "fault enumeration: every prefix, every single-bit flip and 29 byte substitutions at every offset of small valid buffers, random multi-byte corruption, header variants, arbitrary byte strings; each loaded into a pre-populated engine with tags enabled. Correspondence cases: header_dispatch vs decode_class on header variants and a sample of the corrupted buffers (non-trivial = the bytes start with the magic or the gzip header, or differ from them in one byte), plus decoded rules with the hostname-anchor bit and no hostname".into();
+
+    // ---- F25 probe first: a 10-byte input whose str32 length prefix announces 256 MiB. If the
+    // decoder allocates it, inputs of that class are predicted and skipped below (guard on);
+    // if it does not (repaired decoder), nothing is skipped.
+    if cx.hwm_ok {
+        reset_hwm();
+        cx.hwm = vm_kb("VmHWM:");
+        let mut h = MAGIC.to_vec();
+        h.extend_from_slice(&[0x00, 0xdb, 0x10, 0x00, 0x00, 0x00]);
+        cx.force = true;
+        attempt(&mut cx, &mut sm, &mut tally, &h, "str32 length prefix 256 MiB on a 10-byte input");
+        cx.force = false;
+        cx.guard = cx.alloc_hits > 0;
+        cx.guarded = 0;
+        cx.guarded_run = 0;
+    }
+    sm.extra.insert("decoder_allocates_announced_length".into(), json!(cx.guard));
 
     // ---- buffers
     let lists = base_lists(&mut r);
@@ -483,16 +505,6 @@ fn main() {
                 cs.case(format!("res_eqb str_eqb (complete_regex_body {}) (Ok {})", hx(pat), hx(want)), json!({"pattern": hex(pat)}), true);
             }
         }
-    }
-
-    // ---- F25 probe: a 10-byte input whose str32 length prefix announces 256 MiB
-    if cx.hwm_ok {
-        reset_hwm();
-        cx.hwm = vm_kb("VmHWM:");
-        let mut h = MAGIC.to_vec();
-        h.extend_from_slice(&[0x00, 0xdb, 0x10, 0x00, 0x00, 0x00]);
-        cx.force = true;
-        attempt(&mut cx, &mut sm, &mut tally, &h, "str32 length prefix 256 MiB on a 10-byte input");
     }
 
     sm.extra.insert("loads".into(), json!(tally.ok + tally.err));
